@@ -54,7 +54,7 @@ for p in props:
 
 manifest = {
     "version": 1,
-    "setup_cmd": "cd lean && lake build",
+    "setup_cmd": "cd lean && (lake build || echo some-modules-failed-to-build-the-affected-checks-will-report-it)",
     "hooks": {
         "guard": "WANNIERBERRI_VERIF",
         "enable": "no source hooks are needed: checks import /repo's working tree in-process (PYTHONPATH=/repo) and "
